@@ -26,7 +26,7 @@ def run(tier, seed, replay):
     else:
         rng = rng_for(seed, "C19")
         cases = [ratelimit.gen_case(rng, n_ops=120 if thorough else 60) for _ in range(6000 if thorough else 600)]
-    findings = corr.collect("ratelimit", cases, ratelimit.oracle, {"c19-tenant", "c19-global", "panic"}, rep, stats)
+    findings = corr.collect("ratelimit", cases, ratelimit.oracle, {"c19-tenant", "c19-global", "c19-refused-with-budget", "panic"}, rep, stats)
     verdict.settle(rep, ok, info, findings, MODULE)
     proof_coverage(rep, info, "cd lean && lake build %s && lake env lean <#print axioms audit>" % MODULE, TRUSTED)
     rep.coverage.update({
